@@ -33,8 +33,8 @@ def main():
     src = f"/tmp/seed/out-R{rnd}-{prop}" if rnd else f"/tmp/seed/out-{prop}"
     diff = f"{src}/change{k}.diff"
     demo = f"{src}/demo{k}.py"
-    touches_refs = "xdeps/refs.py" in open(diff).read()
-    build = f"{PY} setup.py build_ext --inplace >/dev/null 2>&1; rm -f xdeps/refs.c"
+    touches_refs = "xdeps/refs.py" in open(diff).read() or "setup.py" in open(diff).read()
+    build = f"{PY} setup.py build_ext --inplace --force >/dev/null 2>&1; rm -f xdeps/refs.c"
     meta = {"property": prop, "needs": needs, "ran": [], "files_touched": sorted(set(re.findall(r"^\+\+\+ b/(\S+)", open(diff).read(), re.M)))}
     sh("git checkout -- .", wt)
     rc, out = sh(f"git apply {diff}", wt)
